@@ -59,7 +59,14 @@ def main():
         def run_vec(j):
             argv, env = cfgs[j]
             sf = os.path.join(wd, "as%d.txt" % j)
-            open(sf, "w").write("argsizes p\nargs u\nenvsizes u\nenv p\n")
+            # default placement, then the strings ending exactly at the end of memory, then the pointer array ending there
+            MEMSIZE = 40 * 65536
+            lines = ["argsizes p", "args u", "envsizes u", "env p"]
+            for cmd, vec in (("args", argv), ("env", env)):
+                total, nptr = sum(len(x) + 1 for x in vec), 4 * len(vec)
+                lines.append("%s p %d %d %d %d" % (cmd, BIG, MEMSIZE - total, nptr, total))
+                lines.append("%s u %d %d %d %d" % (cmd, MEMSIZE - nptr, BIG + 0x1000, nptr, total))
+            open(sf, "w").write("\n".join(lines) + "\n")
             sb = os.path.join(wd, "asb%d" % j)
             os.makedirs(sb, exist_ok=True)
             import subprocess
@@ -70,8 +77,10 @@ def main():
         vec_out = pmap(run_vec, range(nv))
         for j, (argv, env) in enumerate(cfgs):
             for which, vec in (("args", argv), ("env", env)):
-                recs.append({"kind": "layout", "vec": [list(x) for x in vec], "buf": BIG + 0x1000})
-                owner.append(("layout", j, which))
+                total = sum(len(x) + 1 for x in vec)
+                for buf in (BIG + 0x1000, 40 * 65536 - total, BIG + 0x1000):
+                    recs.append({"kind": "layout", "vec": [list(x) for x in vec], "buf": buf})
+                    owner.append(("layout", j, which))
         # --- clocks
         clock_lines = []
         ids = [0, 1, 1, 2, 3, 1, 4, 7, 0xFFFFFFFF, 1, 0, 1] + [1] * 24 + [0] * 6
@@ -107,6 +116,31 @@ def main():
             owner.append(("clock", cid, ob))
             if cid == 1 and ob["errno"] == 0:
                 prev = t
+        # --- the configuration for hosts without POSIX timers (gettimeofday / getrusage): realtime and process CPU time are still
+        #     the host's, to the microsecond; the other two clocks do not exist there and are not asked for
+        exe_fb = wasi.build_driver(wd, name="wasidrv-fb", extra=["-DWASI_FALLBACK_TIMERS_ENABLED=1"])
+        fids = [0, 2, -1, 2, 0, 2, 2]
+        sf = os.path.join(wd, "clkfb.txt")
+        open(sf, "w").write("".join(("clock %s %d 1\n" % (rng.choice("pu"), i)) if i >= 0 else "burn x 150\n" for i in fids))
+        rc, so, se = run([exe_fb, os.path.join(wd, "csb"), sf, "--"], timeout=120, env={"ASAN_OPTIONS": "detect_leaks=0"})
+        fl_ = [json.loads(l) for l in so.splitlines() if l.startswith("{")]
+        SLACK = 5 * 10 ** 6
+        for n, cid in enumerate(fids):
+            if cid < 0:
+                continue
+            br = next((l for l in fl_ if l.get("i") == n + 1 and "bracket" in l), None)
+            ob = next((l for l in fl_ if l.get("i") == n + 1 and "call" in l), None)
+            if br is None or ob is None:
+                v.deviation("clock:no-observation", {"id": cid, "configuration": "fallback timers", "stderr": se[-300:]})
+                continue
+            ch = wasi.changed(ob)
+            wrote = any(wasi.R1 <= a < wasi.R1 + 8 for a in ch)
+            ns = int.from_bytes(bytes(ch.get(wasi.R1 + k, 0xEE) for k in range(8)), "little") if wrote else 0
+            lo = max(0, br["bracket"][0] * 10 ** 9 + br["bracket"][1] - SLACK)
+            hi = br["bracket"][2] * 10 ** 9 + br["bracket"][3] + SLACK
+            recs.append({"kind": "clock", "id": cid, "errno": ob["errno"], "wrote": wrote, "t": [ns // 10 ** 9, ns % 10 ** 9] if ns < 2 ** 62 else [2 ** 31 - 1, 0],
+                         "before": [lo // 10 ** 9, lo % 10 ** 9], "after": [hi // 10 ** 9, hi % 10 ** 9], "prev": [0, 0]})
+            owner.append(("clock", 20 + cid, ob))
         # --- clock_res_get: the resolution of the same host clock, EINVAL for unknown identifiers
         rids = [0, 1, 2, 3, 4, 9, 0xFFFFFFFF, 1, 0]
         sf = os.path.join(wd, "clkres.txt")
@@ -236,7 +270,7 @@ def main():
             sig = ("random:%s" % ("fails-above-256-bytes" if a > 256 else "len-%d" % a)) if kind == "random" else \
                   "clock:steps-back" if kind == "clockseq" else \
                   ("clock:resolution-id-%d" % (a if a < 10 else 99)) if kind == "clockres" else \
-                  ("clock:id-%d" % (a if a < 10 else 99)) if kind == "clock" else \
+                  ("clock:id-%d" % (a if a < 10 else 99) if a < 20 or a > 29 else "clock:fallback-timers:id-%d" % (a - 20)) if kind == "clock" else \
                   {"exit": "exit:%s" % a, "spawn": "spawn:%s" % (a if isinstance(a, str) else "K=%s" % a), "layout": "layout:model"}[kind]
             if kind == "layout":
                 raise common.MachineryError("the layout function violates its own disjointness conditions")
@@ -247,29 +281,36 @@ def main():
         for j, (argv, env) in enumerate(cfgs):
             rc, out, err = vec_out[j]
             by = {r["call"]: r for r in out if "call" in r}
-            for which, vec in (("args", argv), ("env", env)):
+            byi = {r["i"]: r for r in out if "call" in r}
+            for wi, (which, vec) in enumerate((("args", argv), ("env", env))):
+              total = sum(len(x) + 1 for x in vec)
+              for variant, (PA, BA, line) in enumerate(((BIG, BIG + 0x1000, None), (BIG, 40 * 65536 - total, 5 + 2 * wi), (40 * 65536 - 4 * len(vec), BIG + 0x1000, 6 + 2 * wi))):
                 lay = judged["layouts"][li]
                 li += 1
                 sizes, L = lay["s"], lay["l"]
-                sz, gt = by.get("argsizes" if which == "args" else "envsizes"), by.get(which)
+                sz, gt = by.get("argsizes" if which == "args" else "envsizes"), (by.get(which) if line is None else byi.get(line))
+                if line is None:
+                    gt = next((r for r in out if r.get("call") == which and r["i"] <= 4), None)
                 if sz is None or gt is None:
                     v.deviation(wasi.asan_sig(err) or "%s:crash" % which, {"vector": [x.hex() for x in vec], "stderr": err[-400:]})
                     continue
                 compared += 2
-                ch = wasi.changed(sz)
-                got = (int.from_bytes(bytes(ch.get(wasi.R1 + k, 0xEE) for k in range(4)), "little"), int.from_bytes(bytes(ch.get(wasi.R2 + k, 0xEE) for k in range(4)), "little"))
-                if sz["errno"] != 0 or got != (sizes["count"], sizes["total"]) or set(ch) - set(range(wasi.R1, wasi.R1 + 4)) - set(range(wasi.R2, wasi.R2 + 4)):
-                    v.deviation("%s:sizes" % which, {"vector": [x.hex() for x in vec], "spec": sizes, "code": got, "errno": sz["errno"]})
+                if variant == 0:
+                    ch = wasi.changed(sz)
+                    got = (int.from_bytes(bytes(ch.get(wasi.R1 + k, 0xEE) for k in range(4)), "little"), int.from_bytes(bytes(ch.get(wasi.R2 + k, 0xEE) for k in range(4)), "little"))
+                    if sz["errno"] != 0 or got != (sizes["count"], sizes["total"]) or set(ch) - set(range(wasi.R1, wasi.R1 + 4)) - set(range(wasi.R2, wasi.R2 + 4)):
+                        v.deviation("%s:sizes" % which, {"vector": [x.hex() for x in vec], "spec": sizes, "code": got, "errno": sz["errno"]})
                 ch = wasi.changed(gt)
                 exp = {}
                 for i, p in enumerate(L["ptrs"]):
                     for k, bb in enumerate(p.to_bytes(4, "little")):
-                        exp[BIG + 4 * i + k] = bb
+                        exp[PA + 4 * i + k] = bb
                 for k, bb in enumerate(L["bytes"]):
-                    exp[BIG + 0x1000 + k] = bb
+                    exp[BA + k] = bb
                 bad = [a for a in exp if ch.get(a, 0xEE) != exp[a]] + [a for a in ch if a not in exp]
                 if gt["errno"] != 0 or bad:
-                    v.deviation("%s:layout" % which, {"vector": [x.hex() for x in vec], "first_bad_address": hex(min(bad)) if bad else None, "errno": gt["errno"]})
+                    v.deviation("%s:layout%s" % (which, ["", ":strings-end-at-memory-end", ":pointers-end-at-memory-end"][variant]),
+                                {"vector": [x.hex() for x in vec], "first_bad_address": hex(min(bad)) if bad else None, "errno": gt["errno"]})
     finally:
         shutil.rmtree(wd, ignore_errors=True)
     cov = {"states": ts_ok["distinct"] + ts_bad["distinct"] + jr["distinct"], "transitions": ts_ok["generated"] + ts_bad["generated"] + jr["generated"],
